@@ -220,3 +220,8 @@ def run_c16(pid, tier, seed):
 
 
 register("C16", run_c16, replay_models)
+
+
+# ---------------------------------------------------------------- C11: diagnostics
+import c11
+register("C11", c11.run, c11.replay)
